@@ -46,7 +46,58 @@ func (s *c20Stats) inc(k string) {
 	atomic.AddInt64(p, 1)
 }
 
+// c20Borrow: the precisely scheduled whole-server scenarios of the other checks, run under the race
+// detector. The C20 stress is random churn; these are the schedules the churn meets only by luck
+// (a relay pull overtaken by a publisher, a kick between two handshake steps, a consumer stalled
+// past its queue, an input ending at a chosen frame …). Only what C20 is about is taken from
+// them: race reports and fatal errors in the child's log. Their behavioural verdicts belong to
+// their own check (built without -race, on timing the race build does not have) and are only
+// counted.
+var c20BorrowFrom = []string{"C03", "C16", "C17", "C01", "C15", "C03", "C02", "C16", "C14", "C17", "C06", "C07"}
+
+func c20NumStress(tier string) int {
+	if tier == "thorough" {
+		return 64
+	}
+	return 16
+}
+
+func c20Borrowed(c *fw.Ctx, j int) {
+	c.RestartChild = true
+	src := c20BorrowFrom[j%len(c20BorrowFrom)]
+	p := fw.Get(src)
+	if p == nil {
+		c.Inconclusive("no property %s", src)
+		return
+	}
+	n := p.NumCases("quick", c.Seed)
+	idx := c.Rng.Intn(n)
+	procs := []int{4, 16}[j%2]
+	runtime.GOMAXPROCS(procs)
+	c.Describe("borrowed scenario %s quick case %d (seed %d) under -race, GOMAXPROCS=%d", src, idx, c.Seed, procs)
+	evals, viol, inc, finished := c.Borrow(src, "quick", idx, 150*time.Second)
+	c.Cell("borrowed/%s", src)
+	c.Count("borrowed_cases", 1)
+	c.Count("borrowed_oracle_evaluations", evals)
+	if !finished {
+		c.Count("borrowed_unfinished", 1)
+		fmt.Fprintf(os.Stderr, "BORROWED-UNFINISHED %s case %d\n", src, idx)
+		return
+	}
+	for _, v := range viol {
+		// not C20's verdict (see above); shown for whoever reads the log
+		fmt.Fprintf(os.Stderr, "BORROWED-ORACLE %s case %d sig=%s %s\n", src, idx, v.Sig, trunc(v.What, 300))
+		c.Count("borrowed_oracle_alarms_not_judged", 1)
+	}
+	c.Count("borrowed_inconclusive_parts", len(inc))
+	c.Eval(1)
+}
+
 func c20Run(c *fw.Ctx, i int) {
+	if ns := c20NumStress(c.Tier); i >= ns {
+		c20Borrowed(c, i-ns)
+		return
+	}
 	c.RestartChild = true
 	r := c.Rng
 	procs := []int{1, 2, 4, 16}[i%4]
@@ -579,14 +630,14 @@ func init() {
 		ID: "C20",
 		NumCases: func(tier string, seed int64) int {
 			if tier == "thorough" {
-				return 64
+				return 64 + 256
 			}
-			return 16
+			return 16 + 16
 		},
 		Batches:            func(string) int { return 16 },
 		CaseTimeout:        func(tier string) time.Duration { return 3 * time.Minute },
 		TimeoutIsViolation: true,
-		Rule: "worker built with -race (checkptr on); one lal server per process with every output enabled (HLS with sub-session hash key, periodic group debug log every second, FLV/TS recording, RTSP, WS-RTSP, relay push to a stub target that refuses every third connection, API); GOMAXPROCS ∈ {1,2,4,16}; liveness sweep every 2–4 s. For 12 s (thorough 40 s) concurrent actors churn on three stream names: 3 RTMP publishers, RTSP publishers over TCP and UDP (one in four sends SETUP requests naming no track of its SDP and goes away), a customize publisher, start_rtp_pub + PS over UDP/TCP (incl. a second TCP connection), 4 subscriber actors (RTMP, HTTP-FLV, WS-FLV, HTTP-TS, RTSP TCP/UDP, HLS playlist+segments, consumers that never read), 3 HLS pollers and a blacklist writer with 1 s entries (every /hls/ request consults and expires the ip blacklist), a relay pull on a name of its own that attaches and is then kicked or stopped, a notification handler that calls the stat API from inside OnHlsMakeTs, 4 API actors (stat group / all_group / lal_info, kick of listed pub/sub/pull ids, start/stop_relay_pull against an origin that refuses / closes / serves, add_ip_blacklist, web UI); Dispose at a seeded instant 0.2–1.7 s before the actors stop. Oracles: every `WARNING: DATA RACE` block in the child's log whose accesses touch lal or naza frames is a violation (signature = unordered pair of innermost lal/naza functions); `fatal error: concurrent map…`, `send on closed channel`, `all goroutines are asleep` are crashes; ≥3 consecutive API calls timing out (5 s each) while the server runs, Dispose not returning within 20 s, or a case exceeding its watchdog are deadlock violations with the goroutine dump; so is a goroutine that, after Dispose returned and all peers are gone, waits for a lal mutex in two dumps 2.5 s apart (a teardown that never completes). cell = GOMAXPROCS.",
+		Rule: "worker built with -race (checkptr on); one lal server per process with every output enabled (HLS with sub-session hash key, periodic group debug log every second, FLV/TS recording, RTSP, WS-RTSP, relay push to a stub target that refuses every third connection, API); GOMAXPROCS ∈ {1,2,4,16}; liveness sweep every 2–4 s. For 12 s (thorough 40 s) concurrent actors churn on three stream names: 3 RTMP publishers, RTSP publishers over TCP and UDP (one in four sends SETUP requests naming no track of its SDP and goes away), a customize publisher, start_rtp_pub + PS over UDP/TCP (incl. a second TCP connection), 4 subscriber actors (RTMP, HTTP-FLV, WS-FLV, HTTP-TS, RTSP TCP/UDP, HLS playlist+segments, consumers that never read), 3 HLS pollers and a blacklist writer with 1 s entries (every /hls/ request consults and expires the ip blacklist), a relay pull on a name of its own that attaches and is then kicked or stopped, a notification handler that calls the stat API from inside OnHlsMakeTs, 4 API actors (stat group / all_group / lal_info, kick of listed pub/sub/pull ids, start/stop_relay_pull against an origin that refuses / closes / serves, add_ip_blacklist, web UI); Dispose at a seeded instant 0.2–1.7 s before the actors stop. Oracles: every `WARNING: DATA RACE` block in the child's log whose accesses touch lal or naza frames is a violation (signature = unordered pair of innermost lal/naza functions); `fatal error: concurrent map…`, `send on closed channel`, `all goroutines are asleep` are crashes; ≥3 consecutive API calls timing out (5 s each) while the server runs, Dispose not returning within 20 s, or a case exceeding its watchdog are deadlock violations with the goroutine dump; so is a goroutine that, after Dispose returned and all peers are gone, waits for a lal mutex in two dumps 2.5 s apart (a teardown that never completes). cell = GOMAXPROCS. In addition (quick 16, thorough 256 cases, each in a fresh child, GOMAXPROCS 4 or 16) the same race build runs seeded cases borrowed from the scenario lists of C03, C16, C17, C01, C15, C02, C14, C06 and C07 - precisely scheduled histories (relay pull overtaken by a publisher, kicks between handshake steps, consumers stalled past their queue, inputs ending at chosen frames, re-publishing) that random churn meets only by luck; from these only race reports and fatal errors are judged (their behavioural oracles belong to their own checks and are only counted: borrowed_oracle_alarms_not_judged). cell = borrowed/<property>.",
 		Assumptions: []string{"GORACE=halt_on_error=0 exitcode=0 so that one report does not hide the rest", "a race between two harness-only frames is a harness fault, not a finding"},
 		MinCells: 2,
 		Run:      c20Run,
